@@ -112,6 +112,9 @@ def search(obname, limit=20000):
     if fn == "retis_swap_zero":
         from props import C11
         return C11.search(obname)
+    if fn == "calc_cv_vector":
+        from props import C10
+        return C10.search(obname)
     if fn == "run_md":
         from vf.native_moves import run_runmd
         for n in (1, 2):
@@ -137,6 +140,8 @@ def search(obname, limit=20000):
 
 
 def relevant(obname, found):
+    if obname.split("/")[0] == "calc_cv_vector":
+        return True  # C10's native oracle restates exactly the weight-vector clause
     from vf.native_moves import relevant as rel
     return rel(obname, found)
 
@@ -151,6 +156,9 @@ def replay(obname, w):
     if "old0" in w:
         from props import C11
         return C11._run(w)
+    if obname.split("/")[0] == "calc_cv_vector":
+        from props import C10
+        return C10.replay(obname, w)
     if w.get("function") == "wire_fencing":
         return _run_wf(w)
     if w.get("function") == "run_md":
